@@ -38,7 +38,10 @@ RULE_ADDED = (
               ' '
               'Round 9: the requests that run into the repair of an unacceptable device are of '
               'every command; a device locked with one retry left must stop the manager within '
-              'three requests. ')
+              'three requests. '
+              ' '
+              'Round 10: after the link failure the device may also be locked with an unsupport'
+              'ed UI version or a wrong echo: no PIN byte, no unlock. ')
 RULE = RULE + " " + RULE_ADDED.strip()
 ASSUMPTIONS = [
     "simulated device + fake transports trusted",
@@ -337,11 +340,25 @@ def unsafe_after_reconnection(acc, c, s, dev, bad):
     s.bus.arm({})
     dev.pending_link = None
     how = rng.choice(["signer-version", "not-onboarded", "locked-no-retries",
-                      "locked-no-retries"])
+                      "locked-no-retries", "locked-unsupported-ui", "locked-unsupported-ui",
+                      "locked-wrong-echo"])
     if how == "signer-version":
         dev.cfg["signer_version"] = rng.choice([(5, 5, 0), (6, 0, 0), (4, 4, 1), (5, 4, 2)])
     elif how == "not-onboarded":
         dev.onboarded = False
+    elif how in ("locked-unsupported-ui", "locked-wrong-echo"):
+        # another device (or this one after a firmware change) is there after the link
+        # failure: locked, plenty of retries, but running a UI version the manager does
+        # not support / echoing wrongly.  It gets no PIN.
+        dev.mode = MODE_BOOTLOADER
+        dev.unlocked = False
+        dev.retries = 3
+        if how == "locked-unsupported-ui":
+            dev.cfg["ui_version"] = rng.choice([(5, 5, 0), (6, 0, 0), (4, 0, 0), (5, 4, 2)])
+            dev.cfg["echo_ok"] = True
+        else:
+            dev.cfg["ui_version"] = (5, 4, 1)
+            dev.cfg["echo_ok"] = rng.choice(["last", "extended", "truncated"])
     else:
         dev.mode = MODE_BOOTLOADER
         dev.unlocked = False
@@ -362,10 +379,17 @@ def unsafe_after_reconnection(acc, c, s, dev, bad):
     acc.count("reconnections_to_an_unsafe_device")
     asked = []
     req = rng.choice(pool)
+    mark0 = len(s.bus.events)
     for k in range(3):
         asked.append(req["command"] + ("/" + "".join(sorted(req.get("message", {})))[:12]
                                        if req["command"] == "sign" else ""))
         r, e, _ = s.request(req)
+        if how.startswith("locked-") and how != "locked-no-retries" and any(
+                ev["apdu"] is not None and ev["apdu"][1] in (0x41, 0xFE)
+                for ev in s.bus.apdus(mark0)):
+            bad("pin-or-unlock-sent-after-reconnection-to-a-device-with-%s" % how[7:],
+                request_no=k, first_repair_cut_by=cut)
+            return
         if e is None and isinstance(r, dict) and r.get("errorcode") == 0:
             bad("served-from-unsafe-state:after-reconnection:%s" % how, request_no=k,
                 first_repair_cut_by=cut)
